@@ -99,8 +99,15 @@ def run(ctx):
         ctx.unknown("R5", pi.where(), "no ImmediateOperand(value=..) is built in process_immediate", pi.qname, "immediate conversion")
     for c in imm:
         v = [k.value for k in c.keywords if k.arg == "value"][0]
-        got = C.CT(U(iflow.subst(v)))
-        ctx.check(got == C.CT('int(%s["value"], 0)' % ip), "R5", "immediates become integers (sign and base from the literal)", pi.where(c),
+        sv = iflow.subst(v)
+        got = C.CT(U(sv))
+        want_arg = C.CT('%s["value"]' % ip)
+        # int(<value>, 0), or a conversion helper of the class called with base 0 (judged as a conversion site above)
+        is_int = isinstance(sv, ast.Call) and isinstance(sv.func, ast.Name) and sv.func.id == "int" and sv.args and C.CT(U(sv.args[0])) == want_arg
+        helper = isinstance(sv, ast.Call) and isinstance(sv.func, ast.Attribute) and isinstance(sv.func.value, ast.Name) and sv.func.value.id in (
+            "self", "cls", CLS) and sv.args and C.CT(U(sv.args[0])) == want_arg
+        ok_ = got == C.CT('int(%s["value"], 0)' % ip) or (helper and len(sv.args) > 1 and C.const_num(sv.args[1]) == 0)
+        ctx.judge(ok_, is_int or not helper, "R5", "immediates become integers (sign and base from the literal)", pi.where(c),
                   "the immediate value is %s" % got, pi.qname, "immediate conversion")
     inst = ctx.func(CLS + ".parse_instruction")
     order = [U(c.args[0]) for c in C.calls_to(inst.node, "process_operand")]
